@@ -87,7 +87,7 @@ class HistGen:
         price = self.price if (self.at_level_price or r.random() < 0.85) else self.price + r.choice([1, 13])
         return gen.order(k, oid=oid, price=price, side=r.choice("BS"), ts=ts, tif=r.choice(gen.TIFS),
                          vis=v, hid=h, thr=r.choice([0, 0, 1, 2, 5, 50]),
-                         amt=r.choice([None, None, 0, 1, 3, 10, 100]), auto=r.random() < 0.7,
+                         amt=r.choice([None, None, 0, 1, 3, 10, 80, 100]), auto=r.random() < 0.7,
                          trail=r.randint(0, 9), lastref=r.randint(0, 9), off=r.randint(-5, 5), peg=r.choice(gen.PEGS))
 
     @staticmethod
